@@ -1,6 +1,7 @@
 // C09 (concurrent part): distinct handles to one shared payload used by different threads.
 // Values are thread-private, so the final content of every handle is schedule independent.
 #include <nstd/String.hpp>
+#include <nstd/List.hpp>
 #include <nstd/Variant.hpp>
 #include <nstd/RefCount.hpp>
 #include <nstd/Thread.hpp>
@@ -23,6 +24,11 @@ static uint strDrop(void* p) { delete (String*)p; return 0; }
 static uint strCView(void* p) { String* h = (String*)p; const String& c = *h; const char* z = c; if(strlen(z) != 6) vf_failf("C09:content", "C-string view has length %d", (int)strlen(z)); expectStr(*h, "abcdef", "viewed string"); delete h; return 0; }
 static uint strWrite(void* p) { String* h = (String*)p; char* w = *h; w[0] = 'X'; expectStr(*h, "Xbcdef", "written string"); delete h; return 0; }
 static uint strAssign(void* p) { String* h = (String*)p; String other("zz", 2); *h = other; expectStr(*h, "zz", "reassigned string"); delete h; return 0; }
+// the remaining release paths of a String handle: clear(), attach() and assignment from a String that owns no counted payload
+static uint strClear(void* p) { String* h = (String*)p; h->clear(); expectStr(*h, "", "cleared string"); delete h; return 0; }
+static uint strAttach(void* p) { String* h = (String*)p; h->attach("lit", 3); expectStr(*h, "lit", "attached string"); delete h; return 0; }
+static uint strAssignUncounted(void* p) { String* h = (String*)p; String other; other.attach("zz", 2); *h = other; expectStr(*h, "zz", "string assigned from an attached one"); delete h; return 0; }
+static uint strJoin(void* p) { String* h = (String*)p; List<String> l; l.append(String("p", 1)); l.append(String("q", 1)); h->join(l, ','); expectStr(*h, "p,q", "joined string"); delete h; return 0; }
 static void scenString(int variant)
 {
   vf_heap_baseline();
@@ -33,7 +39,10 @@ static void scenString(int variant)
     Thread a, b, c;
     if(variant == 0) { a.start(strCopyDrop, hs[0]); b.start(strAppend, hs[1]); c.start(strDrop, hs[2]); }
     else if(variant == 1) { a.start(strCView, hs[0]); b.start(strWrite, hs[1]); c.start(strCopyDrop, hs[2]); }
-    else { a.start(strAssign, hs[0]); b.start(strDrop, hs[1]); c.start(strAppend, hs[2]); }
+    else if(variant == 2) { a.start(strAssign, hs[0]); b.start(strDrop, hs[1]); c.start(strAppend, hs[2]); }
+    else if(variant == 3) { a.start(strClear, hs[0]); b.start(strDrop, hs[1]); c.start(strAttach, hs[2]); }
+    else if(variant == 4) { a.start(strAssignUncounted, hs[0]); b.start(strClear, hs[1]); c.start(strCopyDrop, hs[2]); }
+    else { a.start(strJoin, hs[0]); b.start(strAttach, hs[1]); c.start(strAssignUncounted, hs[2]); }
     a.join(); b.join(); c.join();
   }
   if(vf_live_heap_blocks() != 0) vf_failf("C09:release", "%ld heap block(s) still allocated after the last handle was dropped", vf_live_heap_blocks());
@@ -153,7 +162,7 @@ static void scenXml(int variant)
 }
 
 struct Scen { const char* name; void (*fn)(int); int variants; };
-static const Scen SCEN[] = {{"string", scenString, 3}, {"variant", scenVariant, 5}, {"ptr", scenPtr, 2}, {"xml", scenXml, 2}};
+static const Scen SCEN[] = {{"string", scenString, 6}, {"variant", scenVariant, 5}, {"ptr", scenPtr, 2}, {"xml", scenXml, 2}};
 extern "C" int vf_scenario_count(void) { return (int)(sizeof(SCEN) / sizeof(*SCEN)); }
 extern "C" const char* vf_scenario_name(int id) { return SCEN[id].name; }
 extern "C" int vf_scenario_variants(int id) { return SCEN[id].variants; }
